@@ -336,6 +336,9 @@ func genPolicyCase(r *prng.R) []string {
 		} else {
 			p = derive(r, pats[r.Intn(len(pats))], k)
 		}
+		// `{{id}}` / `{id}}` / `{id}` are the same trie parts with different texts: the endpoint policy tree's
+		// by-URL side table is C13's business (text vs parts key); keep one spelling per parameter here
+		p = strings.NewReplacer("{{id}}", "{id:int}", "{id}}", "{user.id}").Replace(p)
 		m := prng.Pick(r, methodsAll[:6])
 		on := 1
 		if r.Chance(12) {
